@@ -5,11 +5,11 @@ From Coq Require Import ZArith QArith Qreduction List.
 From GV Require Import model.AggFn.
 Extraction "extract/aggfn_model.ml"
   AggFn.result_tree AggFn.run_tree AggFn.flatten AggFn.nn AggFn.both Qreduction.Qred
-  AggFn.count_agg AggFn.sum_chk AggFn.sum_f AggFn.avg_i AggFn.avg_f AggFn.avg_d AggFn.avg_dec
+  AggFn.count_agg AggFn.sum_chk AggFn.sum_f AggFn.avg_i AggFn.avg_f AggFn.avg_dec
   AggFn.regr_avgx AggFn.regr_avgy AggFn.var_agg AggFn.covar_agg AggFn.corr_agg AggFn.regr_r2_agg
   AggFn.regr_slope_agg AggFn.min_agg AggFn.max_agg AggFn.first_agg AggFn.bool_and_agg AggFn.bool_or_agg
   AggFn.bit_and_agg AggFn.bit_or_agg AggFn.string_agg
-  AggFn.spec_count AggFn.spec_sum AggFn.spec_sum_f AggFn.spec_avg_f AggFn.spec_avg_i AggFn.spec_avg_d AggFn.spec_avg_dec
+  AggFn.spec_count AggFn.spec_sum AggFn.spec_sum_f AggFn.spec_avg_f AggFn.spec_avg_i AggFn.spec_avg_dec
   AggFn.spec_var AggFn.spec_covar AggFn.spec_corr AggFn.spec_regr_slope AggFn.spec_regr_avgx
   AggFn.spec_regr_avgy AggFn.spec_min AggFn.spec_max AggFn.spec_first AggFn.spec_bool_and AggFn.spec_bool_or
   AggFn.spec_bit AggFn.spec_string_agg.
